@@ -50,6 +50,8 @@ def check(prog: Program, tier: str) -> Result:
             res.ok("R5.1", fn.loc(stmt), fq, text[:160], what, trivial=not _touches_param(own, fn))
     # ---------------- R5.5 memoised functions do not read the environment
     _r5_5(prog, res)
+    # ---------------- R5.6 closures that outlive their factory keep no mutable state
+    _r5_6(prog, res)
     # ---------------- R5.4 identity across caches
     seen_id = set()
     for f in own.identity_findings:
@@ -169,6 +171,61 @@ def _r5_3(prog: Program, res: Result) -> None:
                 detail = "undone in the finally clause of the enclosing try" if ok else "the finally clause does not undo this write"
             res.decide(ok, "R5.3", fn.loc(node), fn.fq, short(node, 80), f"{target}: {detail}")
     res.analysed["global_state_writes"] = n
+
+
+def _r5_6(prog: Program, res: Result) -> None:
+    """A function that is RETURNED by the function it is defined in (a decorator's wrapper, a factory's product) lives
+    as long as the decorated rule does - for the whole process.  A mutable object created in the enclosing call and
+    mutated inside the returned function is state that persists from one call of the rule to the next: a hand-made memo
+    ("sources this rule left unchanged", "results already computed").  Unless everything the result depends on is part
+    of the key - and the options `preserve`, `max_line_length`, the files on disk are not - a later call replays what
+    was true for an earlier one.  Instance: every escaping nested function; obligation: it mutates no variable of an
+    enclosing function scope."""
+    from ..loopstate import MUTATORS
+    n = 0
+    for w in prog.funcs.values():
+        outer = getattr(w, "outer", None)
+        if outer is None:
+            continue
+        # does the enclosing function hand w out?
+        escapes = any(isinstance(r, ast.Return) and r.value is not None and any(isinstance(x, ast.Name) and x.id == w.name for x in ast.walk(r.value))
+                      for r in walk_own(outer.node))
+        if not escapes:
+            continue
+        n += 1
+        own = set(w.all_params) | {x.id for x in walk_own(w.node) if isinstance(x, ast.Name) and isinstance(x.ctx, ast.Store)}
+        # mutable objects created in an enclosing function scope (any depth)
+        enclosing = {}
+        o = outer
+        while o is not None:
+            for a in walk_own(o.node):
+                if isinstance(a, ast.Assign) and len(a.targets) == 1 and isinstance(a.targets[0], ast.Name):
+                    v = a.value
+                    mutable = isinstance(v, (ast.Dict, ast.List, ast.Set, ast.ListComp, ast.SetComp, ast.DictComp)) or (
+                        isinstance(v, ast.Call) and norm(v.func).split(".")[-1] in ("set", "dict", "list", "defaultdict", "OrderedDict", "Counter", "deque"))
+                    if mutable:
+                        enclosing.setdefault(a.targets[0].id, (o, a))
+            o = getattr(o, "outer", None)
+        hits = []
+        for x in walk_own(w.node):
+            name = None
+            if isinstance(x, ast.Call) and isinstance(x.func, ast.Attribute) and x.func.attr in MUTATORS and isinstance(x.func.value, ast.Name):
+                name = x.func.value.id
+            elif isinstance(x, ast.Subscript) and isinstance(x.ctx, (ast.Store, ast.Del)) and isinstance(x.value, ast.Name):
+                name = x.value.id
+            elif isinstance(x, ast.AugAssign) and isinstance(x.target, ast.Name):
+                name = x.target.id if any(isinstance(g, ast.Nonlocal) and x.target.id in g.names for g in walk_own(w.node)) else None
+            if name and name not in own and name in enclosing:
+                hits.append((name, x))
+        if not hits:
+            res.ok("R5.6", w.loc(), w.fq, f"{w.name}() handed out by {outer.name}()", "mutates no variable of an enclosing scope", trivial=True)
+            continue
+        name, node = hits[0]
+        o_, a_ = enclosing[name]
+        res.bad("R5.6", w.loc(node), w.fq, f"{short(node, 60)} # '{name}' of {o_.name}()",
+                f"'{name}' is created once per call of {o_.name}() (line {a_.lineno}) and mutated here, inside the function that {outer.name}() hands out: it persists across "
+                f"calls of {w.name}(), so what one call records is replayed by later calls - also when the options or the environment differ")
+    res.analysed["escaping_closures"] = n
 
 
 ENV_READS = {
